@@ -87,7 +87,16 @@ DoSave(hk, f, n, cut) ==
 DoSnap(i, t) ==
   /\ mode = "append" /\ ncall < MaxCalls
   /\ i > MaxMarker(recs)
-  /\ SaveSnapshot([i |-> i, t |-> t])
+  /\ IF Mutant = "snap-sets-enti"
+     THEN \* a marker behind the log moves the last-saved index backwards
+          /\ mode = "append"
+          /\ recs' = Append(recs, SnapRec([i |-> i, t |-> t]))
+          /\ enti' = i
+          /\ handed' = Len(recs') /\ pproc' = Len(recs')
+          /\ synced' = (IF opt THEN synced ELSE Len(recs'))
+          /\ ppow'   = (IF opt THEN ppow ELSE Len(recs'))
+          /\ UNCHANGED <<segs, mode, opt, locks, img, snapq, res>>
+     ELSE SaveSnapshot([i |-> i, t |-> t])
   /\ ncall' = ncall + 1 /\ UNCHANGED ncut
 
 \* the node releases at the index of a snapshot it has saved, after wal.Sync(): the marker
